@@ -622,25 +622,41 @@ func (b *Body) checkStringAccessors(l *Ledger) {
 				}
 			}
 		})
-		if lk == nil {
-			l.add("R-DISPATCH", b.Name, key, b.rel(fn.Pos()), Violated, "the accessor does not look its member up with comma-ok", true)
-			continue
-		}
 		var okv, objv ssa.Value
-		plain := !lk.CommaOk
-		if plain {
-			objv = lk
-		}
-		for _, ex := range extractOf(lk, 1) {
-			okv = ex
-		}
-		for _, ex := range extractOf(lk, 0) {
-			objv = ex
+		var helperStr, helperErr ssa.Value
+		plain := false
+		if lk == nil {
+			// through a helper that looks the member up and says whether it is there
+			hc, hok, hstr, herr, isH := b.viaMemberHelper(fn, spec.member)
+			if !isH {
+				l.add("R-DISPATCH", b.Name, key, b.rel(fn.Pos()), Violated, "the accessor does not look its member up with comma-ok", true)
+				continue
+			}
+			_ = hc
+			okv, helperStr, helperErr = hok, hstr, herr
+			plain = false
+		} else {
+			plain = !lk.CommaOk
+			if plain {
+				objv = lk
+			}
+			for _, ex := range extractOf(lk, 1) {
+				okv = ex
+			}
+			for _, ex := range extractOf(lk, 0) {
+				objv = ex
+			}
 		}
 		bad := ""
 		ei := errResultIndex(fn)
 		for _, r := range liveReturns(fn) {
+			if helperErr != nil && retVal(r, ei) == helperErr && retVal(r, 0) == helperStr {
+				continue // the helper's own verdict, handed on as it is
+			}
 			if !isNilConst(retVal(r, ei)) {
+				if !b.definitelyNonNilErr(retVal(r, ei), r.Block(), 0) {
+					bad = fmt.Sprintf("the return at %s hands back an error that may be nil without the member being known present and non-null", b.posOf(r))
+				}
 				continue
 			}
 			present, nonNull := false, false
@@ -654,6 +670,12 @@ func (b *Body) checkStringAccessors(l *Ledger) {
 			}
 			if plain && nonNull {
 				present = true
+			}
+			if helperStr != nil && okv == nil && helperErr != nil && knownNilAt(helperErr, r.Block()) {
+				present = true // the helper reports no error only for a member that is there, not null and decoded
+			}
+			if helperStr != nil && present {
+				nonNull = true // the helper says present only for a member that is there and not null
 			}
 			if !present || !nonNull {
 				bad = fmt.Sprintf("the successful return at %s is not confined to `member present && member != null` (present: %v, non-null: %v): a missing or null %q is accepted", b.posOf(r), present, nonNull, spec.member)
@@ -694,8 +716,11 @@ func (b *Body) checkStringAccessors(l *Ledger) {
 					if !nnTrue {
 						nilSucc = 0
 					}
-					if x == objv {
+					if objv != nil && x == objv {
 						reason[cfgEdge{bb, nilSucc}] = true
+					}
+					if helperErr != nil && x == helperErr {
+						reason[cfgEdge{bb, 1 - nilSucc}] = true
 					}
 					if isErrorType(x.Type()) {
 						var call *ssa.Call
@@ -733,6 +758,9 @@ func (b *Body) checkStringAccessors(l *Ledger) {
 				if isNilConst(retVal(r, ei)) {
 					continue
 				}
+				if helperErr != nil && retVal(r, ei) == helperErr && retVal(r, 0) == helperStr {
+					continue // fails exactly when the helper does
+				}
 				n3++
 				if reach[r.Block()] {
 					bad3 = "the error return at " + b.posOf(r) + " can be reached with the member present, non-null and decoded: a patch whose " + spec.member + " is a string is rejected (DecodePatch validates through this accessor)"
@@ -752,6 +780,12 @@ func (b *Body) checkStringAccessors(l *Ledger) {
 				continue
 			}
 			n2++
+			if helperStr != nil {
+				if retVal(r, 0) != helperStr {
+					bad2 = "return at " + b.posOf(r) + ": the string returned is not the one the member helper decoded"
+				}
+				continue
+			}
 			if why := b.decodedString(retVal(r, 0), objv); why != "" {
 				bad2 = "return at " + b.posOf(r) + ": " + why + " (escapes such as \\u0061 or \\/ in the member would not be resolved, or a non-string member would be accepted)"
 			}
@@ -1986,20 +2020,27 @@ func (b *Body) checkOperationShape(l *Ledger) {
 			}
 		}
 	})
-	if lk == nil {
-		l.add("R-DISPATCH", b.Name, key, b.rel(kind.Pos()), Violated, "Kind does not look the op member up with comma-ok", true)
-		return
-	}
 	var okv, objv ssa.Value
-	plain := !lk.CommaOk
-	if plain {
-		objv = lk
-	}
-	for _, ex := range extractOf(lk, 1) {
-		okv = ex
-	}
-	for _, ex := range extractOf(lk, 0) {
-		objv = ex
+	var helperStr ssa.Value
+	plain := false
+	if lk == nil {
+		_, hok, hstr, _, isH := b.viaMemberHelper(kind, "op")
+		if !isH {
+			l.add("R-DISPATCH", b.Name, key, b.rel(kind.Pos()), Violated, "Kind does not look the op member up with comma-ok", true)
+			return
+		}
+		okv, helperStr = hok, hstr
+	} else {
+		plain = !lk.CommaOk
+		if plain {
+			objv = lk
+		}
+		for _, ex := range extractOf(lk, 1) {
+			okv = ex
+		}
+		for _, ex := range extractOf(lk, 0) {
+			objv = ex
+		}
 	}
 	bad = ""
 	for _, r := range liveReturns(kind) {
@@ -2018,6 +2059,9 @@ func (b *Body) checkOperationShape(l *Ledger) {
 		if plain && nonNull {
 			present = true
 		}
+		if helperStr != nil && present {
+			nonNull = true
+		}
 		if !present || !nonNull {
 			bad = "a decoded kind is returned at " + b.posOf(r) + " without the member being known present and non-null"
 		}
@@ -2035,6 +2079,12 @@ func (b *Body) checkOperationShape(l *Ledger) {
 			continue
 		}
 		n++
+		if helperStr != nil {
+			if retVal(r, 0) != helperStr {
+				bad = "return at " + b.posOf(r) + ": the kind returned is not the string the member helper decoded"
+			}
+			continue
+		}
 		if why := b.decodedString(retVal(r, 0), objv); why != "" {
 			bad = "return at " + b.posOf(r) + ": " + why + " (an op spelled with escapes, \"\\u0061dd\", would be reported as unknown and the patch rejected)"
 		}
@@ -2170,6 +2220,14 @@ func (b *Body) decodedString(v ssa.Value, from ssa.Value) string {
 		switch y := r.(type) {
 		case *ssa.Store:
 			if y.Addr == ssa.Value(al) {
+				// a named result is stored back into itself at the return, and given the
+				// other returns' values on paths that never come here
+				if ld, isLd := y.Val.(*ssa.UnOp); isLd && ld.Op == token.MUL && ld.X == ssa.Value(al) {
+					continue
+				}
+				if y.Block() != u.Block() && !reachesWithout(y.Block(), u.Block(), nil) {
+					continue
+				}
 				bad = "the string is assigned at " + b.posOf(y) + " rather than decoded"
 			}
 		case *ssa.MakeInterface:
